@@ -262,8 +262,10 @@ def main():
         ],
         "wall_s": wall, "violations": len(violations),
     }
-    os.makedirs(os.path.join(VERIF, "evidence"), exist_ok=True)
-    with open(os.path.join(VERIF, "evidence", prop + ".json"), "w") as f:
+    # a run against a scratch worktree (seeded change) must never overwrite the evidence of the real tree
+    evdir = os.path.join(VERIF, "evidence", "seedruns") if os.environ.get("VERIF_REPO") else os.path.join(VERIF, "evidence")
+    os.makedirs(evdir, exist_ok=True)
+    with open(os.path.join(evdir, prop + ".json"), "w") as f:
         json.dump(evidence, f, indent=1, default=repr)
 
     for p in per_cond:
